@@ -1,24 +1,29 @@
 //! C16: a request whose framing-relevant header syntax is ambiguous must be answered with 400 and
 //! never delivered; the bytes after its head must not be parsed as a further request.
-//! usage: c16_header_syntax <case>   case in {cl-sign, cl-junk, cl-list, cl-empty, cl-overflow, blank-fold, lead-ws, ws-before-colon}
+//! usage: c16_header_syntax <case>   case in {cl-sign, cl-junk, cl-list, cl-empty, cl-blank, cl-tab, cl-overflow, blank-fold, lead-ws, ws-before-colon, all}
 use std::time::Duration;
 use verif_replay::*;
-fn main() {
-    let case = std::env::args().nth(1).unwrap_or_else(|| "cl-sign".into());
-    let head: &[u8] = match case.as_str() {
+const CASES: [&str; 10] = ["cl-sign", "cl-junk", "cl-list", "cl-empty", "cl-blank", "cl-tab", "cl-overflow", "blank-fold", "lead-ws", "ws-before-colon"];
+fn head_of(case: &str) -> &'static [u8] {
+    match case {
         "cl-sign" => b"POST /a HTTP/1.1\r\nHost: a\r\nContent-Length: +3\r\n\r\nabc",
         "cl-junk" => b"POST /a HTTP/1.1\r\nHost: a\r\nContent-Length: 3x\r\n\r\nabc",
         "cl-list" => b"POST /a HTTP/1.1\r\nHost: a\r\nContent-Length: 3, 3\r\n\r\nabc",
         "cl-empty" => b"POST /a HTTP/1.1\r\nHost: a\r\nContent-Length:\r\n\r\nabc",
+        "cl-blank" => b"POST /a HTTP/1.1\r\nHost: a\r\nContent-Length: \r\n\r\nabc",
+        "cl-tab" => b"POST /a HTTP/1.1\r\nHost: a\r\nContent-Length:\t\r\n\r\nabc",
         "cl-overflow" => b"POST /a HTTP/1.1\r\nHost: a\r\nContent-Length: 340282366920938463463374607431768211456\r\n\r\nabc",
         "blank-fold" => b"POST /a HTTP/1.1\r\nHost: a\r\nContent-Length: 0\r\n \t\r\nX: y\r\n\r\n",
         "lead-ws" => b"POST /a HTTP/1.1\r\nHost: a\r\n Content-Length: 3\r\n\r\nabc",
         "ws-before-colon" => b"POST /a HTTP/1.1\r\nHost: a\r\nContent-Length : 3\r\n\r\nabc",
         _ => panic!("unknown case"),
-    };
+    }
+}
+/// None = as the property says; Some(what) = what went wrong
+fn run_case(case: &str) -> (bool, String) {
     let server = tiny_http::Server::http("127.0.0.1:0").unwrap();
     let mut c = connect(&server);
-    let mut msg = head.to_vec();
+    let mut msg = head_of(case).to_vec();
     msg.extend_from_slice(b"GET /smuggled HTTP/1.1\r\nHost: a\r\n\r\n");
     send(&mut c, &msg);
     let mut delivered = Vec::new();
@@ -28,5 +33,14 @@ fn main() {
     }
     let out = String::from_utf8_lossy(&read_available(&mut c)).to_string();
     let got_400 = out.starts_with("HTTP/1.1 400");
-    verdict(delivered.is_empty() && got_400, &format!("case {}: delivered to the application: {:?}; first response line: {:?}", case, delivered, out.lines().next()));
+    (delivered.is_empty() && got_400, format!("case {}: delivered to the application: {:?}; first response line: {:?}", case, delivered, out.lines().next()))
+}
+fn main() {
+    let case = std::env::args().nth(1).unwrap_or_else(|| "cl-sign".into());
+    if case == "all" {
+        let bad: Vec<String> = CASES.iter().map(|c| run_case(c)).filter(|r| !r.0).map(|r| r.1).collect();
+        verdict(bad.is_empty(), &if bad.is_empty() { format!("all {} cases: 400, nothing delivered", CASES.len()) } else { bad.join(" | ") });
+    }
+    let (ok, what) = run_case(&case);
+    verdict(ok, &what);
 }
